@@ -7,11 +7,13 @@ Protocol (ids are small naturals; op n is "op<n>", resource n is "r<n>" in the i
   complete o / abort o controller.complete_operation / abort_operation
   kill o               CoordinationSystem.kill_operation              shutdown
   exempt o b           ctx.metadata["watchdog_exempt"] = b            adv us   virtual clock
+  advance o            controller.advance(ctx) (default checkpoints: G0 -> G1 makes the operation a starvation candidate)
   deadlock             controller.check_deadlock()                    watchdog   watchdog.execute(controller)
   boost                priority_manager.check_and_boost(controller)   maint      run_maintenance()
   exec o p r,r,..|-|none <4 x b|n|x|y|z> <n|k<t>|s|w|m>:<ok|raise[.K]>[:<us passing inside work>] <absent|yes|no|raise[.K]>
                        CoordinationSystem.execute_operation
   cell o p <same five fields as exec> <ok|notag|raise[.K]>          IntegratedCell.execute (cell.coordination = the system)
+A work function that returns does so with `ok` (42) or `ok.<V>`: N None, Z 0, E "", L [], F False, O object().
 Exception kinds K: V0 ValueError(), A0 AssertionError(), R0 RuntimeError(""), K0 KeyError(), C0 CustomFault() (all with
 str(e) == ""), Vm ValueError("boom"), Km KeyError("k"), Cm CustomFault("boom"); plain `raise` = RuntimeError with a
 message.  Checkpoints: x RuntimeError("checkpoint"), y ValueError(), z CustomFault().  BaseException subclasses
@@ -42,6 +44,9 @@ def make_exc(tok, default_msg):
             "Km": lambda: KeyError("k"), "Cm": lambda: CustomFault("boom")}.get(kind, lambda: RuntimeError(default_msg))()
 
 
+RESULTS = {"N": lambda: None, "Z": lambda: 0, "E": lambda: "", "L": lambda: [], "F": lambda: False,
+           "O": lambda: object()}
+RESULT_KINDS = ["", "", "", ".N", ".N", ".Z", ".E", ".L", ".F", ".O"]
 KINDS = ["", "", ".V0", ".A0", ".R0", ".K0", ".C0", ".Vm", ".Km", ".Cm"]
 
 
@@ -195,23 +200,24 @@ class Impl:
             return cond
         ctrl.checkpoints = {ph: [C.Checkpoint(phase=ph, condition=mk(ph), name="scripted")] for ph in self.defaults}
         own = []
+        work_events = []
 
         def work():
             own.append("".join(("?" if r not in ctrl.resources else show_bool(ctrl.resources[r].owner == op))
                                for r in (req or [])))
-            log.append(f"work:{show_bool(wok == 'ok')}")
+            log.append(f"work:{show_bool(wok.startswith('ok'))}")
             self.o.clock.advance_us(tick)
             if act.startswith("k"):
                 cs.kill_operation(opn(int(act[1:])))
             elif act == "s":
                 cs.shutdown()
             elif act == "w":
-                cs.watchdog.execute(ctrl)
+                work_events.extend((num(e.operation_id), e.reason.value) for e in cs.watchdog.execute(ctrl))
             elif act == "m":
-                cs.run_maintenance()
-            if wok != "ok":
+                work_events.extend((num(e.operation_id), e.reason.value) for e in cs.run_maintenance()["apoptosis"])
+            if not wok.startswith("ok"):
                 raise make_exc(wok, "work")
-            return 42
+            return RESULTS[wok[3:]]() if "." in wok else 42
 
         def validate(x):
             log.append(f"val:{show_bool(val == 'yes')}")
@@ -266,6 +272,7 @@ class Impl:
             cell.quality_pool.__dict__.pop("allocate", None)
         info["log"] = list(log)
         info["own"] = list(own)
+        info["work_events"] = list(work_events)
         return out
 
     # ------------------------------------------------------------------------------------------------------
@@ -316,6 +323,12 @@ class Impl:
                 else:
                     ctx.metadata["watchdog_exempt"] = t[2] == "1"
                 return "ok", info
+            if k == "advance" and len(t) == 2:
+                ctx = ctrl.active_operations.get(opn(int(t[1])))
+                if ctx is None:
+                    return "noop", info
+                r = ctrl.advance(ctx)
+                return show_bool(r.value == "passed"), info
             if k == "shutdown":
                 cs.shutdown()
                 return "ok", info
@@ -420,7 +433,7 @@ def gen_exec(rng, op, nres, others, fault=None):
         act = "w"
     else:
         act = "m"
-    wok = "ok" if rng.random() < 0.75 else "raise" + rng.choice(KINDS)
+    wok = "ok" + rng.choice(RESULT_KINDS) if rng.random() < 0.75 else "raise" + rng.choice(KINDS)
     if act in "wm" and rng.random() < 0.6:
         wok += f":{rng.choice([1, 6, 11])}"
     val = rng.choice(VALS)
@@ -435,3 +448,39 @@ def gen_cfg(rng):
     def lim():
         return rng.choice(["none", "none", "none", "0", "5", "10"])
     return f"cfg {lim()} {lim()} {lim()} {rng.choice(['priority', 'priority', 'oldest', 'other'])}"
+
+
+def gen_multi_kill(rng):
+    """One watchdog / maintenance pass with several kill reasons at once: some members of a wait-for ring have timed
+    out, another member is the deadlock victim, a bystander starves in G1, priorities may get boosted first."""
+    L = rng.choice([3, 5])
+    k = rng.choice([2, 2, 3])
+    strat = rng.choice(["priority", "priority", "oldest"])
+    maxop, starv = rng.choice([(str(L), "none"), (str(L), "none"), (str(L), str(L)), ("none", str(L)), (str(3 * L), str(L))])
+    lines = [f"cfg {maxop} {starv} none {strat}"] + [f"res {r} 0" for r in range(1, k + 2)]
+    ops = list(range(1, k + 1))
+    rng.shuffle(ops)
+    prios = {o: rng.randint(0, 4) for o in ops}
+    early = set(rng.sample(ops, rng.randint(1, k - 1)))          # these will have timed out, the others not
+    for o in ops:
+        if o in early:
+            lines.append(f"start {o} {prios[o]}")
+    lines.append(f"adv {rng.choice([L - 1, L, 2])}")
+    for o in ops:
+        if o not in early:
+            lines.append(f"start {o} {prios[o]}")
+    if rng.random() < 0.4 or starv != "none":
+        lines += [f"start 9 {rng.randint(0, 4)}", "advance 9"]    # starvation candidate
+        if rng.random() < 0.5:
+            lines.append(f"acq 9 {k + 1}")
+    for o in ops:
+        lines.append(f"acq {o} {o}")
+    for o in ops:
+        lines.append(f"acq {o} {o % k + 1}")
+    if rng.random() < 0.3:
+        lines.append(f"exempt {rng.choice(ops)} 1")
+    lines.append(f"adv {rng.choice([1, 2, L, L + 1])}")
+    lines.append("deadlock")
+    lines.append(rng.choice(["watchdog", "watchdog", "maint", f"exec 8 1 {k + 1} bbbb w:ok yes", f"cell 8 1 - bbbb m:ok.N no ok"]))
+    lines += ["deadlock", "watchdog", f"exec 7 2 1,2 bbbb n:ok yes"]
+    return {"lines": lines, "note": "several kill reasons in one pass"}
